@@ -1,6 +1,7 @@
 ----------------------------- MODULE Contract -----------------------------
 (* Enumerates, for every checked site of ContractOps, every abstract object state and every argument *)
-(* at and beyond the boundary (0, 1, n-1, n, n+1, n+2, cap-1, cap, cap+1, cap+2, max) - valid and      *)
+(* at and beyond the boundary (0, 1, n-1, n, n+1, n+2, cap-1, cap, cap+1, cap+2, max-1, max) - valid   *)
+(* and (max-1 = SIZE_MAX-1 exposes checks written as "offset + count <= size()" that wrap around)       *)
 (* violating - and exports them (GEN).  MC role: the table is total (CPre is a boolean for every       *)
 (* offered call) and both classes are non-empty for every site (non-vacuity).                          *)
 EXTENDS ContractOps, TLC, Json
@@ -33,7 +34,7 @@ ArgDom(site, cap, n) ==
     CASE f = "num" -> {0, 1, 2, MAXTOK}
       [] f = "chrono" -> {0, 1, 12, 31, 254, 255, 256, MAXTOK}
       [] f = "var" -> {0, 1}
-      [] OTHER -> ({0, 1, n - 1, n, n + 1, n + 2, cap - 1, cap, cap + 1, cap + 2, MAXTOK}) \cap Nat
+      [] OTHER -> ({0, 1, n - 1, n, n + 1, n + 2, cap - 1, cap, cap + 1, cap + 2, MAXTOK - 1, MAXTOK}) \cap Nat
 
 Calls ==
     UNION {
